@@ -168,10 +168,13 @@ def run_accessor(c, args):
     dims = c.get("dims", ["time", "y", "x"])
     shape = [1, 1, 1]
     shape[dims.index("time")] = len(y)
-    da = xr.DataArray(y.reshape(shape), dims=dims)
+    nd = args[1] if v not in ("gu", "pgu") else args[2]
+    # the smoothers take nodata as an argument; the cube carries an unrelated (conflicting) nodata attribute,
+    # equal to one of its valid observations: the argument, also a falsy one, is what counts
+    valid = [float(t) for t in y.tolist() if np.isfinite(t) and t != nd]
+    da = xr.DataArray(y.reshape(shape), dims=dims, attrs={"nodata": (valid[0] if valid else float(nd) + 1.0 if np.isfinite(nd) else -1.0)})
     if c.get("dask"):
         da = da.chunk({d: 1 for d in dims if d != "time"})
-    nd = args[1] if v not in ("gu", "pgu") else args[2]
     if v in ("v", "vp"):
         r = da.hdc.whit.whitsvc(nd, srange=args[-1], p=(args[2] if v == "vp" else None))
     elif v == "vplc":
